@@ -1,10 +1,10 @@
-import Martian.Util
-/-! STUB — property C09 is not built yet. -/
+import Martian.Drv.H2Relay
+/-! Driver of C09: the shared h2 relay model (Model/H2Relay.lean, Drv/H2Relay.lean). -/
 namespace Martian.Drv.C09
 open Martian
 
-abbrev St := Unit
-def init : St := ()
-def step (s : St) (_toks : List String) : St × String := (s, "bad-op")
+abbrev St := Martian.Drv.H2Relay.St
+def init : St := Martian.Drv.H2Relay.init
+def step (s : St) (toks : List String) : St × String := Martian.Drv.H2Relay.step s toks
 
 end Martian.Drv.C09
